@@ -724,6 +724,39 @@ theorem C03_final_newline_irrelevant (ls : List Str) (h : ∀ l ∈ ls, NoNl l) 
       ↔ (∃ t, readStrict (render (ls.map .raw) false) = .ok t ∧ docItems t = c) := by
   rw [C03_accept_iff_lenient ls true h, C03_accept_iff_lenient ls false h]
 
+/-! ### the grammar of C03 inside the lenient grammar -/
+
+theorem render_map_text (ls : List Line) (fnl : Bool) :
+    render ((ls.map Line.text).map .raw) fnl = render ls fnl := by
+  induction ls with
+  | nil => rfl
+  | cons l ls ih =>
+    cases ls with
+    | nil => simp [render, Line.text]
+    | cons m ls =>
+      simp only [List.map_cons, render, Line.text] at ih ⊢
+      rw [ih]
+
+theorem linesWFFrom_noNl : ∀ (ls : List Line) (prev : Bool), LinesWFFrom prev ls → ∀ l ∈ ls.map Line.text, NoNl l := by
+  intro ls
+  induction ls with
+  | nil => intro _ _ l hl; simp at hl
+  | cons x xs ih =>
+    intro prev h l hl
+    simp only [List.map_cons, List.mem_cons] at hl
+    rcases hl with rfl | hl
+    · exact ((validLine_iff x.text).1 ⟨x, h.1, rfl⟩).1
+    · exact ih _ h.2.2 l hl
+
+/-- **the lenient grammar extends the grammar of C03, with the same content** -/
+theorem C03_lenient_extends (ls : List Line) (h : LinesWF ls) :
+    lenient (ls.map Line.text) = some (content ls) := by
+  obtain ⟨t, ht, hc, _⟩ := C03_accept_lines ls true h
+  refine (C03_accept_iff_lenient (ls.map Line.text) true (linesWFFrom_noNl ls false h) _).1 ⟨t, ?_, hc⟩
+  rw [render_map_text]; exact ht
+
+example : lenient (exLines.map Line.text) = some (content exLines) := C03_lenient_extends exLines (by decide)
+
 /-! ### non-vacuity -/
 
 /-- nine lines: a comment, a spaced-colon field, a white-space-only line inside the value, a
